@@ -3,6 +3,8 @@ import re
 from rulelib import walk, nonpanic, path_sig, event_strs, where, depth_limit, canon, call_sites, mem_fields
 from pathwalk import const_val
 
+import witness
+
 EXPLANATION = ("Guard dominance in ServerHashVerification::verify_server_cert: every path that returns ServerCertVerified::assertion() carries, "
                "with the right polarity, comparator and constant: !(now < not_before), !(now > not_after), (not_after - not_before) is Some(x) && "
                "x <= SELF_MAX_VALIDITY (= 14 days, evaluated), algorithm == id-ecPublicKey, parameters is Some(Ok(oid)) && oid == prime256v1, "
@@ -114,5 +116,6 @@ def run(ctx):
     # default-feature build: the insecure verifier and its builder method do not exist
     ins = [fn.path for fn in B.fn_list if fn.path.endswith("with_no_cert_validation")]
     ctx.check("C10-R4", "no `with_no_cert_validation` builder without the `dangerous-configuration` feature", not ins, "default-feature build contains %s" % ins[:3])
+    witness.run(ctx, "C10-R4", {"C10"})
     insA = [fn.path for fn in A.fn_list if fn.path.endswith("with_no_cert_validation")]
     ctx.check("C10-R4", "positive control: feature build has it", len(insA) == 1, "cannot decide: with_no_cert_validation not found in the feature build (anchor moved?)")
